@@ -27,6 +27,10 @@ DAY = 24 * 3600 * 1000000
 NONPROP = {"precondition-not-enforced", "spurious-internal-error", "output-shape", "next-timeout-exceeds-max"}
 
 
+def is_hang(o):
+    return o.startswith("CRASH") and ("rc=-14" in o or "TIMEOUT" in o or "Alarm" in o)
+
+
 def regex_params():
     """Cross-check only: the values gen/params_c19.py found in the source text (0 = not found)."""
     out = {}
@@ -55,7 +59,7 @@ def run(rep, tier, seed, replay):
                        "(its agreement with the raw heap array is measured, not required)",
                        "int64 overflow of microsecond arithmetic: theorem exec_basic_chk_agrees under the stated range hypotheses",
                        "python reference spec gen/c19.py (Spec/oracle: finite map entry -> due time) for the property verdict on implementation outputs",
-                       "harness/c19.cc slot budget (fuel_exhausted thrown from the slot after k invocations per perform); per-case watchdog 30 s",
+                       "harness/c19.cc slot budget (fuel_exhausted thrown from the slot after k invocations per perform); per-case watchdog 20 s",
                        "op L runs the REAL Thread::event_loop of a harness Thread subclass for one iteration (real init_thread_local, process_events, "
                        "timeout computation, Poll::do_poll); the clock read by utils::time_since_epoch() is std::chrono::system_clock::now() interposed by "
                        "the harness executable; Poll::do_poll is wrapped at link time (-Wl,--wrap) to record its timeout argument, the thread's cached_time() and "
@@ -93,7 +97,16 @@ def run(rep, tier, seed, replay):
         stats = {"replay": 1}
     else:
         cases, stats = G.gen(seed, tier)
-    io = ltv.run_sharded(impl, cases)
+    # hand-picked cases first: if the implementation hangs on several of them, the bulk is not run (every
+    # hanging case costs a full watchdog period); each hang is reported with its case as replay
+    n0 = min(len(cases), stats.get("corpus", 0) + stats.get("hand", 0)) if not replay else len(cases)
+    io = ltv.run_sharded(impl, cases[:n0], timeout=300)
+    io = io + ["MISSING"] * (n0 - len(io))
+    if sum(1 for o in io if is_hang(o)) >= 2:
+        cases = cases[:n0]
+        stats["bulk_skipped_after_hangs"] = True
+    else:
+        io += ltv.run_sharded(impl, cases[n0:], timeout=300)
     io = io + ["MISSING"] * (len(cases) - len(io))
     mo = ltv.run_sharded(model, [c + " | " + G.choices(o) for c, o in zip(cases, io)], args=margs)
     mo = mo + ["MISSING"] * (len(cases) - len(mo))
@@ -109,10 +122,10 @@ def run(rep, tier, seed, replay):
     for i, case in enumerate(cases):
         o = io[i]
         m_abs, _, m_conc = mo[i].partition(" || ")
-        if o.startswith("CRASH") and ("rc=-14" in o or "TIMEOUT" in o or "Alarm" in o):
+        if is_hang(o):
             if reported.get("hang", 0) < 3:
                 reported["hang"] = reported.get("hang", 0) + 1
-                rep.violation("implementation hangs on this op list (per-case watchdog 30 s)", case=case, model=m_abs, impl=o,
+                rep.violation("implementation hangs on this op list (per-case watchdog 20 s)", case=case, model=m_abs, impl=o,
                               theorem="correspondence C19", klass="hang")
             continue
         viol = G.oracle(case, o)
